@@ -31,6 +31,20 @@ var reducedR = []M{
 	{Method: zipgen.Stored, Size: 1, Zip64: zipgen.Z64Offset, Extra: zipgen.ExtraPad},
 }
 
+// thorough tier: a wider alphabet for the pair family
+var reducedR2 = append(append([]M{}, reducedR...), []M{
+	{Method: zipgen.Deflate, Size: 1, Desc: zipgen.Desc24}, // what relic's NewFile(useDesc) emits for a non-empty member
+	{Method: zipgen.Stored, Size: 300, Zip64: zipgen.Z64Both},
+	{Method: zipgen.Deflate, Size: 70000, Desc: zipgen.Desc16, Zip64: zipgen.Z64Cen},
+	{Method: zipgen.Stored, Size: 1, Desc: zipgen.Desc12},
+	{Method: zipgen.Deflate, Size: 300, Desc: zipgen.Desc20, Zip64: zipgen.Z64Both, Extra: zipgen.ExtraJar},
+	{Method: zipgen.Stored, Size: 0, Desc: zipgen.Desc16, Name: zipgen.NameDir},
+	{Method: zipgen.Deflate, Size: 1, Extra: zipgen.ExtraUnknown, Name: zipgen.NameUTF8, Comment: 1},
+	{Method: zipgen.Stored, Size: 70000, Desc: zipgen.Desc24, Zip64: zipgen.Z64Both, Name: zipgen.NameLong},
+	{Method: zipgen.Stored, Size: 0, Desc: zipgen.Desc20},
+	{Method: zipgen.Deflate, Size: 0, Desc: zipgen.Desc24, Zip64: zipgen.Z64Cen},
+}...)
+
 // smaller set for 3- and 4-member products
 var reducedS = []M{reducedR[0], reducedR[1], reducedR[2], reducedR[4], reducedR[5]}
 var reducedT = []M{reducedR[0], reducedR[1], reducedR[2]}
@@ -97,8 +111,13 @@ func families(thorough bool) []family {
 	// F1b: single member (reduced) x all archive-level features
 	lv1 := archLevels([]int{0}, []int{0, 1, 2}, false)
 	f1b := family{name: "F1b-single-archlevel", what: fmt.Sprintf("1 member from the reduced alphabet R (%d shapes) x EOCD comment{none,10} x ZIP64 end{none,masked,unmasked} x gap before directory{no,yes}", len(reducedR))}
+	alph1b := reducedR
+	if thorough {
+		alph1b = all
+		f1b.what = fmt.Sprintf("1 member over the full per-member product (%d shapes) x EOCD comment{none,10} x ZIP64 end{none,masked,unmasked} x gap before directory{no,yes}", len(all))
+	}
 	for _, l := range lv1[1:] { // the all-default level is in F1
-		for _, m := range reducedR {
+		for _, m := range alph1b {
 			f1b.archives = append(f1b.archives, mk([]M{m}, l))
 		}
 	}
@@ -106,7 +125,11 @@ func families(thorough bool) []family {
 	// F2: all pairs over R x archive-level
 	lv2 := archLevels([]int{0, 1}, []int{0, 1}, true)
 	alph2 := reducedR
-	f2 := family{name: "F2-pairs", what: fmt.Sprintf("2 members, R x R (%d pairs) x EOCD comment{none,10} x ZIP64 end{none,masked} x directory order{body,reversed} x gap between{no,yes} x gap before directory{no,yes}", len(alph2)*len(alph2))}
+	if thorough {
+		lv2 = archLevels([]int{0, 1}, []int{0, 1, 2}, true)
+		alph2 = reducedR2
+	}
+	f2 := family{name: "F2-pairs", what: fmt.Sprintf("2 members, full product over %d shapes (%d pairs) x %d archive-level settings: EOCD comment{none,10} x ZIP64 end{none,masked%s} x directory order{body,reversed} x gap between{no,yes} x gap before directory{no,yes}", len(alph2), len(alph2)*len(alph2), len(lv2), map[bool]string{true: ",unmasked", false: ""}[thorough])}
 	for _, l := range lv2 {
 		for _, ms := range product(alph2, 2) {
 			f2.archives = append(f2.archives, mk(ms, l))
@@ -150,11 +173,12 @@ func bounds(thorough bool) map[string]any {
 		s = append(s, "{"+m.Features()+"}")
 	}
 	return map[string]any{
-		"max_members":        map[bool]int{false: 3, true: 4}[thorough],
-		"rounds_of_rewrite":  maxDepth,
-		"writer_operations":  opNames,
-		"reduced_alphabet_R": r,
-		"reduced_alphabet_S": s,
-		"member_default":     "stored, 1 byte, no descriptor, no zip64 extra, no other extra, 1-char name, no comment",
+		"max_members":                  map[bool]int{false: 3, true: 4}[thorough],
+		"rounds_of_rewrite":            maxDepth,
+		"writer_operations":            opNames,
+		"reduced_alphabet_R":           r,
+		"reduced_alphabet_S":           s,
+		"thorough_pairs_alphabet_size": len(reducedR2),
+		"member_default":               "stored, 1 byte, no descriptor, no zip64 extra, no other extra, 1-char name, no comment",
 	}
 }
